@@ -50,6 +50,8 @@ def make (c):
         return make_half_loop (c)
     if c ['i'] % 10 == 7:
         return make_row (c)
+    if c ['i'] % 10 == 2:
+        return make_stub (c)
     # every tenth case: separately grounded wires whose feet are a fraction of a segment apart (image theory does
     # not rest on the spacing rule of the guidelines; the statement lists "several grounded wires")
     close = c ['i'] % 10 == 9
@@ -64,6 +66,27 @@ def make (c):
         spec ['loads'] = [dict (k = 'skin', cond = float (10 ** rl.uniform (3, 7.8)), tag = None)]
     return gen.clean (spec)
 # end def make
+
+def make_stub (c):
+    """ a grounded feed stub of a single segment with wires on its top (inverted L, T, top-loaded vertical), the stub
+        written before or after the wires it carries, upwards or downwards """
+    rng = np.random.default_rng ([c ['seed'], 35, c ['i']])
+    f, lam, segl, rad = gen.pick_scale (rng)
+    top = np.array ([0.0, 0.0, segl])
+    stub = gen.wire (1, [0, 0, 0], top, rad) if rng.random () < 0.6 else gen.wire (1, top, [0, 0, 0], rad)
+    tops = []
+    R = gen.rot_z (rng.uniform (0, 2 * np.pi))
+    for d in ([[1, 0, 0]], [[1, 0, 0], [-1, 0, 0]], [[1, 0, 0.4]]) [int (rng.integers (0, 3))]:
+        n = int (rng.integers (3, 10))
+        v = R @ (np.array (d, float) / np.linalg.norm (d))
+        far = top + v * n * segl
+        tops.append (gen.wire (n, top, far, rad) if rng.random () < 0.5 else gen.wire (n, far, top, rad))
+    geo = [stub] + tops if rng.random () < 0.6 else tops + [stub]
+    feeds = [dict (at = [0, 0, 0], dir = [0, 0, 1.0])]
+    spec = dict (f = f, geo = geo, fam = 'stub%d' % len (tops), media = [[0, 0, 0]], feeds = feeds, src = [], loads = [])
+    gen.add_sources (rng, spec, nmax = 1)
+    return gen.clean (spec)
+# end def make_stub
 
 def make_row (c):
     """ a row of exactly vertical monopoles (or elevated vertical dipoles) along a coordinate axis: all feet share
